@@ -111,5 +111,5 @@ int main(int argc, char **argv) {
   if (args.prop != "C13") { fprintf(stderr, "ERROR: unknown property\n"); return 2; }
   std::vector<Level> L = {fam_grammars(2, 2), fam_chains(false), fam_grammars(3, 2)};
   if (T) { g_maxlen = 5; L.push_back(fam_grammars(4, 2)); L.push_back(fam_chains(true)); L.push_back(fam_grammars(3, 3)); }
-  return drv::run<Case>(args, L, oracle_C13, {}, 30);
+  return drv::run<Case>(args, L, oracle_C13, {}, 10);
 }
